@@ -3,6 +3,7 @@ mod c02;
 mod c04;
 mod voicegen;
 mod c20;
+mod vset;
 mod dur;
 mod eng;
 mod util;
@@ -23,6 +24,8 @@ fn main() {
         "c04-record" => c04::record(n(2) as u64, n(3), &a[4]),
         "dur-record" => dur::record(n(2) as u64, n(3), &a[4], &a[5]),
         "dur-replay" => dur::replay(&a[2], &a[3]),
+        "vset-record" => vset::record(n(2) as u64, n(3), &a[4], &a[5..]),
+        "vset-replay" => vset::replay(&a[2], &a[3], &a[4]),
         "c20-replay" => c20::replay(&a[2], &a[3]),
         other => die(&format!("unknown command {}", other)),
     }
